@@ -132,6 +132,16 @@ Theorem C33_retained_column_alter : forall s st tn cn k tb, column_alter st = So
 Proof. exact retained_column_alter. Qed.
 Print Assumptions C33_retained_column_alter.
 
+(** ... and through the stale cache CHANGE COLUMN A B renames the column called E *)
+Theorem C33_retained_column_alter_refuted :
+  exists h, let s := run h init in
+    (exists tb, alookup (qual public nT0) (s_tabs s) = Some tb /\ col_names (t_schema tb) = [[69]; nA]) /\
+    snd (step s (ChangeColumn nT0 nA (mkcol nB true None))) = ROk 0 /\
+    exists tb', alookup (qual public nT0) (s_tabs (step_state s (ChangeColumn nT0 nA (mkcol nB true None)))) = Some tb' /\
+                col_names (t_schema tb') = [nB; nA].
+Proof. exact retained_column_alter_refuted. Qed.
+Print Assumptions C33_retained_column_alter_refuted.
+
 Theorem C33_retained_constraint_alter : forall s st k0 tb0,
   (exists tn kd, st = AddConstraint tn kd) \/ (exists tn cn, st = DropConstraint tn cn) ->
   alookup k0 (s_tabs s) = Some tb0 ->
